@@ -304,3 +304,12 @@ def predictive_covar_fast(c, br, kind, detach):
     if len(res.dims) == br + 2:
         half = lambda row, p: mk_sum(lambda k: T.at(b + [row, k]) * R.at(b + [k, p]), n.t)  # noqa: E731
         c.prove("covar_fast.is_Ktt_minus_(Ktx R)(Ktx R)^T", res.at_dims(b + [i, j]) == TT.at(b + [i, j]) - mk_sum(lambda p: half(i, p) * half(j, p), r.t))
+
+
+@case("C01", clause="set_train_data_invalidates", name="set_train_data", expand=lambda ix: [(gi, gt, strict) for gi in (True, False) for gt in (True, False) for strict in (True, False)],
+      replay=lambda *a: replay_c01(*a), functions=["gpytorch.models.exact_gp.ExactGP.set_train_data"])
+def set_train_data(c, give_inputs, give_targets, strict):
+    """the posterior is the conditional on the CURRENT training data: replacing inputs and / or targets stores the new tensors and drops the prediction strategy
+    (whose mean cache is a function of the targets, whose covariance caches are functions of the inputs) -- the C03 contract, shared"""
+    from contracts import C03_caches as c03
+    return c03.set_train_data(c, give_inputs, give_targets, strict)
